@@ -84,6 +84,10 @@ def check_wide(m, acc, fam, k, only=None):
             opts.append(o)
         else:
             opts.append(leaf_options(lo, hi))
+    for o in walk(obj).values():
+        if not is_var(o):
+            if not check_flags(o, acc, case0, "original model (16-bit leaves)"):
+                return
     for ii, choice in enumerate(itertools.product(*opts)):
         if only is not None and ii != only:
             continue
@@ -148,11 +152,16 @@ def check_flags(o, acc, case, where):
     for lo, hi in box:
         n *= hi - lo + 1
     if n > 20000:
-        acc.n("flags_skipped_wide")
-        return True
-    pts = ref.box_points(box)
-    lhs = o.sign * pts.sum(axis=1) - o.value
-    mn, mx = int(lhs.min()), int(lhs.max())
+        # too wide to enumerate: the range of a signed sum over a box is attained at its corners (exact Python integers)
+        lo_ = sum(int(lo) for lo, hi in box)
+        hi_ = sum(int(hi) for lo, hi in box)
+        ends = (int(o.sign) * lo_ - int(o.value), int(o.sign) * hi_ - int(o.value))
+        mn, mx = min(ends), max(ends)
+        acc.n("flags_wide_by_corners")
+    else:
+        pts = ref.box_points(box)
+        lhs = o.sign * pts.sum(axis=1) - o.value
+        mn, mx = int(lhs.min()), int(lhs.max())
     acc.n("transitions", 3)
     eb = tuple(int(x) for x in o.equation_bounds)
     if eb != (mn, mx):
